@@ -53,6 +53,13 @@ def check(res):
     for e in v.of("inject_end"):
         if e.d["state"] not in ("idle", "paused", "running"):
             res.notes["requester_returned_in_transient_state"] = res.notes.get("requester_returned_in_transient_state", 0) + 1
+        # a request is accepted only from a state that has a transition to what it asks for: abort() while already
+        # aborting (stop() while stopping, halt() while halting, anything but halt/abort while pausing ...) is refused
+        # (judged only where the state at the time of the call cannot have become a legal one by the time the request
+        # reaches the loop: from aborting / stopping / halting the engine only goes to idle)
+        target = {"abort": "aborting", "stop": "stopping", "halt": "halting", "pause": "pausing"}.get(e.d["do"])
+        if target and e.d["outcome"] == "ok" and e.d.get("state0") in ("aborting", "stopping", "halting"):
+            out.append(V("request-accepted-in-illegal-state", f"{e.d['do']}() was accepted while the engine was {e.d['state0']}: {e.d['state0']} -> {target} is not a transition", do=e.d["do"], state0=e.d["state0"]))
     # usability of the engine for the next call
     steps = [s for s in res.case["script"] if s["do"] == "call"]
     user_calls = [c for c in v.calls if c.api == "call"]
